@@ -191,6 +191,12 @@ func (r *WALReader) readFrame(ctx context.Context, data []byte, verifyChecksum b
 	pgno = binary.BigEndian.Uint32(hdr[0:])
 	commit = binary.BigEndian.Uint32(hdr[4:])
 
+	// SQLite treats a frame with page number zero as invalid and ends the WAL
+	// there, even when its checksum matches.
+	if pgno == 0 {
+		return 0, 0, io.EOF
+	}
+
 	r.frameN++
 
 	return pgno, commit, nil
